@@ -309,6 +309,9 @@ def judge(P, tol=None, record=False):
          obs   : id(node) -> (status, observed dense tensor | None)     dshape: id(node) -> shape of the dense value"""
     if tol is None:
         tol = 1e-6 if is_root_based(P) else 1e-9
+        if sum(1 for n in nodes(P) if n["p"] in ROOT_BASED or (n["p"] == "mul" and isinstance(n.get("b"), dict)
+                                                                 and n["b"].get("p") not in ("t", "py"))) >= 2:
+            tol = 1e-5          # two chained root-based steps (e.g. cat_rows, then operator * operator): errors compound
     vi, vd = {}, {}
     trace, obs, dshape, kinds = [], {}, {}, {}
     last = None
